@@ -10,9 +10,22 @@
                       the end is reported only when all of l has been delivered
      legal_until C l rs   the same, up to the first error whose code is in C
      okp true p       parameters in the documented domain, no fatal source error, callbacks never
-                      fail; ANY number of transient source errors *)
+                      fail; ANY number of transient source errors
+     pipe_erase p     the fault-erased twin of p: every transient error removed from the scripts
+     ctx_blind p      no part of p looks at the context: every source is an SScriptNC, there is
+                      no Flatten (its outer stream is a FromIterator, which does look)
+
+   Sources.  All statements quantify over all sources of Iter/Syntax.v, of both attitudes to
+   the context: FromIterator sources and SScript check the context first (expired: the context
+   error, nothing consumed); SScriptNC never looks at it - called with an expired context it
+   hands over, and consumes, its next scripted event exactly as with a live one (slice-backed
+   streams, channel-backed streams whose select picks the ready item).  Over such sources a
+   combinator that looked at the context after pulling, and returned the context error instead
+   of what it pulled, would lose an item; C08_retry, C08_retry_costs_nothing_ctx_ignoring_source
+   and C08_ctx_blind_* say that none does. *)
 From Juniper Require Import Common.Base Iter.Syntax Iter.Config Iter.ModelBase Iter.IterModel
-  Iter.StreamModel Iter.Spec Iter.IterProofs Iter.StreamProofs Iter.StreamFatal Iter.SReducers.
+  Iter.StreamModel Iter.Spec Iter.IterProofs Iter.StreamProofs Iter.StreamFatal Iter.SReducers
+  Iter.GapsLazy Iter.GapsLazyS.
 
 (* Fatal half.  For every pipeline in the documented domain, with any faults (fatal and transient
    source errors, failing callbacks) and any contexts: until the first reported error that is one
@@ -63,9 +76,11 @@ Theorem C08_fatal_last : forall cfg p live k, dom_z p -> no_fatal k ->
 Proof. exact stream_last_fatal. Qed.
 
 (* Retry half.  Pipelines without unretryable faults but with ANY number and placement of
-   transient source errors and of Next calls with an expired context: the results are a legal
-   trace of the denotation - nothing is lost, nothing is duplicated, the end is reported only
-   after everything has been delivered. *)
+   transient source errors and of Next calls with an expired context, over sources of either
+   attitude to the context (a context-ignoring source answers an expired call with its next
+   item: [legal] allows items anywhere): the results are a legal trace of the denotation -
+   nothing is lost, nothing is duplicated, the end is reported only after everything has been
+   delivered. *)
 Theorem C08_retry : forall cfg p lives,
   okp true p -> legal (den p) (results (run_stream_cfg cfg p (Steps (map CNext lives)))).
 Proof. exact stream_steps_legal. Qed.
@@ -77,9 +92,58 @@ Theorem C08_retry_erased : forall cfg p k,
   results (run_stream_cfg cfg p (Steps (map CNext (repeat true k)))) = expect (den p) k.
 Proof. exact stream_steps_den. Qed.
 
+(* The same against the twin.  Any pipeline without unretryable faults over ANY sources -
+   context-ignoring ones (SScriptNC) included -, any number and placement of transient source
+   errors and of Next calls with an expired context: the items delivered are exactly the items
+   the fault-erased twin delivers to as many calls with a live context (nothing lost, nothing
+   duplicated, nothing reordered), and when the run reports the end the twin's next call
+   reports the end too (nothing was left behind). *)
+Theorem C08_retry_costs_nothing_ctx_ignoring_source : forall cfg p lives,
+  okp true p ->
+  let rs := results (run_stream_cfg cfg p (Steps (map CNext lives))) in
+  let n := length (items_of rs) in
+  results (run_stream_cfg cfg (pipe_erase p) (Steps (map CNext (repeat true n))))
+  = map RItem (items_of rs) /\
+  (In REnd rs ->
+   results (run_stream_cfg cfg (pipe_erase p) (Steps (map CNext (repeat true (S n)))))
+   = map RItem (items_of rs) ++ [REnd]).
+Proof. exact stream_retry_twin. Qed.
+
+(* the twin is failure-free and denotes the same items *)
+Theorem C08_twin : forall p, okp true p -> okp false (pipe_erase p) /\ den (pipe_erase p) = den p.
+Proof. intros p H. exact (conj (pipe_erase_ok p H) (pipe_erase_den p)). Qed.
+
+(* No combinator looks at the context itself.  On a pipeline none of whose parts looks at the
+   context (ctx_blind) a Next with an expired context IS a Next with a live one: for every
+   consumer program (Next with any contexts, Close) the whole run - results, pull counts after
+   every step, event log - is that of the same program with live contexts; for ANY faults
+   (transient and fatal source errors, failing callbacks). *)
+Theorem C08_ctx_blind_expired_is_live : forall cfg p ops,
+  ctx_blind p ->
+  run_stream_cfg cfg p (Steps ops) = run_stream_cfg cfg p (Steps (map op_live ops)).
+Proof. exact stream_blind_live. Qed.
+
+Theorem C08_ctx_blind_expired_is_live_reducers : forall cfg p r live,
+  ctx_blind_z p ->
+  run_stream_cfg cfg (inl p) (Reduce r live) = run_stream_cfg cfg (inl p) (Reduce r true).
+Proof. exact stream_blind_live_reduce. Qed.
+
+(* step level (sblind: the property of states; same fuel on both sides) *)
+Theorem C08_ctx_blind_step : forall s,
+  sblind s -> sstep false s = sstep true s /\ sblind (snd (fst (sstep true s))).
+Proof. exact sstep_blind. Qed.
+
+(* in particular a failure-free pipeline of that kind never answers the context error *)
+Theorem C08_ctx_blind_never_ctx_error : forall cfg p lives,
+  ctx_blind p -> okp false p ->
+  results (run_stream_cfg cfg p (Steps (map CNext lives))) = expect (den p) (length lives).
+Proof. exact stream_blind_steps_den. Qed.
+
 (* The step-level fact: a failed call of a pipeline without unretryable faults leaves the
    denotation of the state unchanged (whatever it did internally is kept: chunkStream.chunk,
-   peekable.curr, whileStream.item, the runs consumer's partial run, ...). *)
+   peekable.curr, whileStream.item, the runs consumer's partial run, ...).  This includes calls
+   with an expired context over context-ignoring sources: whatever such a call pulled from a
+   source before failing is still in the state. *)
 Theorem C08_failed_call_costs_nothing : forall live f s e s' ev,
   sok true s -> snext f live s = (Err e, s', ev) -> sok true s' /\ sden s' = sden s.
 Proof. exact failed_call_costs_nothing. Qed.
@@ -100,6 +164,33 @@ Example C08_fatal_example :
   = [RItem (IZ 1); RItem (IZ 2); RErr 7; RErr 7].
 Proof. exact fatal_example. Qed.
 
+(* Non-vacuity for context-ignoring sources: Filter over an SScriptNC; the calls with an
+   expired context deliver what they pull (2 is dropped by the filter on the way), the
+   transient error costs nothing.  A filterStream.Next that looked at ctx.Err() after its inner
+   Next had succeeded would answer RErr (-1) to the first call and lose the item 1. *)
+Example C08_ctx_ignoring_example :
+  let p := inl (ZFilter (PrModEq 2 1) never_fails
+                  (ZSrc 0 (SScriptNC [EvItem 1; EvItem 2; EvItem 3; EvTransient 9; EvItem 5]))) in
+  okp true p /\ ctx_blind p /\
+  results (run_stream p (Steps (map CNext [false; false; true; false; false])))
+  = [RItem (IZ 1); RItem (IZ 3); RErr 9; RItem (IZ 5); REnd] /\
+  results (run_stream (pipe_erase p) (Steps (map CNext [true; true; true; true])))
+  = [RItem (IZ 1); RItem (IZ 3); RItem (IZ 5); REnd].
+Proof.
+  split; [simpl; intuition discriminate|]. split; [reflexivity|].
+  split; vm_compute; reflexivity.
+Qed.
+
+(* the same program over the context-respecting twin of the source: the expired calls cost
+   nothing either, but deliver nothing *)
+Example C08_ctx_respecting_example :
+  results (run_stream (inl (ZFilter (PrModEq 2 1) never_fails
+                              (ZSrc 0 (SScript [EvItem 1; EvItem 2; EvItem 3; EvTransient 9;
+                                                EvItem 5]))))
+                      (Steps (map CNext [false; false; true; false; true])))
+  = [RErr (-1); RErr (-1); RItem (IZ 1); RErr (-1); RItem (IZ 3)].
+Proof. vm_compute. reflexivity. Qed.
+
 (* stream.Last with n = 0 before the repair (original_cfg): integer divide by zero.
    The full statement [C08_fatal_last] is proved for the repaired configuration. *)
 Theorem C08_last_n0_refuted :
@@ -116,5 +207,11 @@ Print Assumptions C08_fatal_one.
 Print Assumptions C08_fatal_last.
 Print Assumptions C08_retry.
 Print Assumptions C08_retry_erased.
+Print Assumptions C08_retry_costs_nothing_ctx_ignoring_source.
+Print Assumptions C08_twin.
+Print Assumptions C08_ctx_blind_expired_is_live.
+Print Assumptions C08_ctx_blind_expired_is_live_reducers.
+Print Assumptions C08_ctx_blind_step.
+Print Assumptions C08_ctx_blind_never_ctx_error.
 Print Assumptions C08_failed_call_costs_nothing.
 Print Assumptions C08_last_n0_refuted.
